@@ -714,6 +714,10 @@ class Gen:
             self.w["load"] = 0
             self.w["save"] = 0
         self.seen = {0: [], 1: [], 2: []}
+        # clear_policy empties memory only; until the next save_policy the adapter still holds the old rows and
+        # a reload would bring them back (and auto-saved adds would be stored twice).  That is documented casbin
+        # behaviour, not a property violation, so no reload is generated while the adapter is stale.
+        self.db_stale = False
 
     def fresh(self, pt):
         return self.uni.p_rule(self.rng) if pt == 0 else self.uni.g_rule(self.rng, pt)
@@ -870,10 +874,16 @@ class Gen:
         if n == "rbac":
             return [self.rbac()]
         if n == "clear":
+            if self.kind.adapter and rng.random() < 0.6:
+                return [(30,), (33,)]
+            self.db_stale = True
             return [(30,)]
         if n == "load":
+            if self.db_stale:
+                return [self.query()]
             return [(31,)]
         if n == "save":
+            self.db_stale = False
             return [(33,)]
         if n == "build":
             return [(34,)]
@@ -907,3 +917,111 @@ class Gen:
                 rows.append((pt, r))
                 self.seen[pt].append(r)
         return rows
+
+
+# ----------------------------------------------------------------------------- generic history runner
+def run_cases(chk, kind, cases, spec_check=None, label="", impl_kwargs=None, compare_model=True, max_report=3,
+              key_fn=None):
+    """cases: list of (rows, load_first, ops).  Runs each on the real enforcer and (batched) on the model.
+    spec_check(kind, rows, load_first, ops, impl_obs, impl) -> list of (step, message[, finding_id])."""
+    impl_kwargs = impl_kwargs or {}
+    impl_obs = []
+    specs = [c[3] if len(c) > 3 else spec_check for c in cases]
+    cases = [c[:3] for c in cases]
+    for rows, lf, ops in cases:
+        impl, obs = run_impl(kind, rows, lf, ops, **impl_kwargs)
+        impl_obs.append((impl, obs))
+    model_obs = [None] * len(cases)
+    if compare_model and chk.oracle is not None:
+        # batch per load_first/rows (each request carries its own rows)
+        reqs = [(1, [kind.wire(), [[pt, r] for pt, r in rows], lf, [list(op) for op in ops]]) for rows, lf, ops in cases]
+        reps = chk.oracle.query(reqs)
+        for n, ((rows, lf, ops), rep) in enumerate(zip(cases, reps)):
+            if isinstance(rep, list) and rep != [998] and not (rep and rep[0] == "ORACLE-ERROR"):
+                model_obs[n] = [canon_model_obs(op, o) for op, o in zip(ops, rep)]
+    reported_spec = reported_dis = 0
+    for n, (rows, lf, ops) in enumerate(cases):
+        impl, obs = impl_obs[n]
+        mut = [op for op in ops if op[0] < 50]
+        chk.count(key_fn(kind, rows, ops) if key_fn else ((kind.name, tuple(map(repr, mut))) if mut else None))
+        if n % max(1, len(cases) // 3) == 0:
+            chk.sample(dict(kind=kind.name, watcher=kind.watcher, adapter=kind.adapter, stratum=label,
+                            initial_rows=[[pt, S(r)] for pt, r in rows],
+                            history=[pretty_op(o) for o in ops if o[0] < 50][:12],
+                            n_ops=len(ops), last_observation=str(obs[-1][0]) if obs else None), cap=8)
+        spec_check = specs[n]
+        viol = spec_check(kind, rows, lf, ops, obs, impl) if spec_check else []
+        if viol:
+            step, msg = viol[0][0], viol[0][1]
+            finding = viol[0][2] if len(viol[0]) > 2 else None
+            small = ops[:step + 1]
+            if reported_spec < max_report:
+                def fails(cand, _msg=msg, spec_check=spec_check):
+                    im, ob = run_impl(kind, rows, lf, cand, **impl_kwargs)
+                    v = spec_check(kind, rows, lf, cand, ob, im)
+                    return any(x[1] == _msg for x in v)
+                try:
+                    small = shrink(small, fails)
+                    im, ob = run_impl(kind, rows, lf, small, **impl_kwargs)
+                    v2 = [x for x in spec_check(kind, rows, lf, small, ob, im) if x[1] == msg]
+                    if v2 and len(v2[0]) > 2:
+                        finding = v2[0][2]
+                    last_obs = ob[v2[0][0]] if v2 else ob[-1]
+                except Exception:  # noqa
+                    last_obs = obs[step]
+            else:
+                last_obs = obs[step]
+            reported_spec += 1
+            chk.spec_fail(dict(kind=kind.name, kind_wire=kind.wire(), stratum=label, load_first=lf,
+                               initial_rows=[[pt, r] for pt, r in rows], ops=[list(o) for o in small],
+                               readable=dict(initial_rows=[[pt, S(r)] for pt, r in rows],
+                                             history=[pretty_op(o) for o in small])),
+                          dict(observation_at_failing_step=last_obs), "see 'what'", msg, finding)
+            continue
+        if compare_model and chk.oracle is not None:
+            d = first_diff(obs, model_obs[n])
+            if d:
+                i, comp = d
+                reported_dis += 1
+                chk.disagree(dict(kind=kind.name, kind_wire=kind.wire(), stratum=label, load_first=lf,
+                                  initial_rows=[[pt, r] for pt, r in rows], ops=[list(o) for o in ops[:i + 1]],
+                                  readable=dict(initial_rows=[[pt, S(r)] for pt, r in rows],
+                                                history=[pretty_op(o) for o in ops[:i + 1] if o[0] < 50] +
+                                                        [pretty_op(ops[i])] if i < len(ops) else [])),
+                             obs[i] if i < len(obs) else None,
+                             model_obs[n][i] if model_obs[n] and i < len(model_obs[n]) else model_obs[n],
+                             where=f"{label}: step {i} component {comp}")
+    chk.traces += len(cases)
+    return impl_obs
+
+
+def replay_case(chk, spec_check, impl_kwargs=None):
+    """generic --replay for history properties: re-run the recorded history on the implementation,
+    evaluate the spec and compare with the model"""
+    import json
+    import sys
+    rec = json.load(open(chk.replay_file))
+    c = rec.get("case") or {}
+    if "ops" not in c:
+        print("replay file names a broken theorem/correspondence, not a history:", json.dumps(rec.get("broken"))[:800])
+        sys.exit(1)
+    w = c["kind_wire"]
+    kind = Kind(c["kind"], *[bool(x) for x in w[:5]], eff=w[5], adapter=bool(w[6]), watcher=w[7])
+    rows = [(pt, r) for pt, r in c["initial_rows"]]
+    ops = [tuple(o) for o in c["ops"]]
+    lf = c.get("load_first", True)
+    impl, obs = run_impl(kind, rows, lf, ops, **(impl_kwargs or {}))
+    viol = spec_check(kind, rows, lf, ops, obs, impl) if spec_check else []
+    mo = run_model(chk.oracle, kind, rows, lf, [ops])[0] if chk.oracle else None
+    d = first_diff(obs, mo) if mo is not None else None
+    print("replay history:", [pretty_op(o) for o in ops])
+    print("  spec violations on the implementation:", viol[:3])
+    print("  implementation vs model:", d)
+    if viol:
+        print(f"VIOLATION property={chk.prop} replay={chk.replay_file}")
+        sys.exit(1)
+    if d:
+        print(f"VIOLATION property={chk.prop} replay={chk.replay_file} no-failing-input-found")
+        sys.exit(1)
+    print("replay passes: the implementation satisfies the spec on this history and agrees with the model")
+    sys.exit(0)
